@@ -202,7 +202,7 @@ def refinement_model(ctx, lay_spec, budget, ordered, anyorder):
                           {"layout": lay_spec, "maxl": maxl})
     for path, probs in g["problems"]:
         for clause, text in probs:
-            if clause in C06_CLAUSES:
+            if clause in C06_CLAUSES and clause != "one-irregular" or (clause == "one-irregular" and ctx.prop in ("C02", "C06")):
                 ctx.violation("%s:%s" % (clause, tag), text, {"layout": lay_spec, "maxl": maxl, "ops": list(path)})
     return st
 
